@@ -22,12 +22,11 @@
     writeCloses  writeLoop: closes `rwc` when it exits                                                 (F38)
     onceNoBlock  setError:  the DISCONNECT is queued with a non-blocking send (inside errOnce.Do)       (F47)
     nilPacket    connectWithTimeOut: a closed `in` is an error, not `ok = true`                        (F49)
-    connSelect   connectWithTimeOut: CONNACK(error) / AUTH are queued with `client.write` (select on close) —
-                 hardening shipped with the F49 patch; no stuck state of the as-is model is known to need it, because
-                 readLoop waits for `connected` after the first packet
+    connSelect   connectWithTimeOut: CONNACK(error) / AUTH are queued with `client.write` (select on close) (F48)
   (`Stop` tracking every connection — the second half of F38 — is the flag `SysCfg.stopAll` below.)
   The model follows the tree including commits ad55f8a / d202e0a: on `client.close` writeLoop flushes a pending
-  CONNACK / DISCONNECT from `out` before it exits.
+  CONNACK / DISCONNECT from `out` before it exits; and b5c09eb: after `client.in <- packet` readLoop waits for
+  `connected` or for one `authStep` token (sent by connectWithTimeOut after every AUTH(continue)).
 
   Not modelled (see Properties/C15.lean): keep-alive read deadline (same path as a read error), `Client.Disconnect`
   API, persistence errors in `registerClient`, the write of a DISCONNECT taking effect on a half-closed TCP socket.
@@ -73,7 +72,7 @@ inductive Once
 inductive RPC
   | read                 -- packetReader.ReadPacket()
   | send (p : Pkt)       -- client.in <- packet
-  | waitConn             -- <-client.connected
+  | waitConn             -- select { <-client.connected ; <-client.authStep }
   | setErr (coded : Bool)-- deferred client.setError(err)
   | sendDisc             -- inside errOnce.Do: client.write(DISCONNECT)
   | closeIn              -- close(client.in)
@@ -151,6 +150,7 @@ structure State where
   inClosed : Bool := false
   outq : List OPkt := []
   connectedCh : Bool := false
+  authStep : Bool := false      -- client.authStep (cap 1): readLoop may read one more packet while CONNECT is pending
   closedCh : Bool := false
   peerClosed : Bool := false
   srvClosed : Bool := false
@@ -181,7 +181,7 @@ inductive Act
   -- environment
   | send (p : Pkt) | peerClose | srvClose | kill | enqueue | setIds (b : Bool) | setStall (b : Bool)
   -- readLoop
-  | rRead | rReadErr | rSend | rSendAbort | rWaitConn | rErr | rSendDisc | rCloseIn
+  | rRead | rReadErr | rSend | rSendAbort | rWaitConn | rAuthStep | rErr | rSendDisc | rCloseIn
   -- writeLoop
   | wRecv | wClose | wWriteOk | wWriteFail | wDrain | wFlushConnack | wFlush | wErr | wCloseSock
   -- serve / connectWithTimeOut
@@ -202,7 +202,7 @@ def Act.isEnv : Act → Bool
 
 /-- every action of the connection's own goroutines (and of the goroutine taking it over) -/
 def internalActs : List Act :=
-  [.rRead, .rReadErr, .rSend, .rSendAbort, .rWaitConn, .rErr, .rSendDisc, .rCloseIn,
+  [.rRead, .rReadErr, .rSend, .rSendAbort, .rWaitConn, .rAuthStep, .rErr, .rSendDisc, .rCloseIn,
    .wRecv, .wClose, .wWriteOk, .wWriteFail, .wDrain, .wFlushConnack, .wFlush, .wErr, .wCloseSock,
    .cRecv, .cRecvNil, .cTimeout, .cSendAuth, .cSendAuthSkip, .cSendErrConnack, .cSendErrConnackSkip,
    .cWriteConnack, .cWriteConnackSkip, .cErr, .cCloseConnected,
@@ -263,6 +263,7 @@ def step (c : Cfg) (s : State) : Act → Option State
     | .send _ => if c.fix.readSelect = true ∧ s.once = .done then some { s with r := .setErr false } else none
     | _ => none
   | .rWaitConn => if s.r = .waitConn ∧ s.connectedCh = true then some { s with r := .read } else none
+  | .rAuthStep => if s.r = .waitConn ∧ s.authStep = true then some { s with r := .read, authStep := false } else none
   | .rErr =>
     match s.r with
     | .setErr coded => onceBegin c s coded { s with r := .sendDisc } { s with r := .closeIn }
@@ -312,8 +313,9 @@ def step (c : Cfg) (s : State) : Act → Option State
       some { s with s := if c.fix.nilPacket then .cSetErr else .cCloseConnected true }
     else none
   | .cTimeout => if s.s = .cSel then some { s with s := .cSetErr } else none
-  | .cSendAuth => if s.s = .cSendAuth then outPut s { s with s := .cSel } else none
-  | .cSendAuthSkip => if s.s = .cSendAuth ∧ c.fix.connSelect = true then outSkip s { s with s := .cSel } else none
+  | .cSendAuth => if s.s = .cSendAuth then outPut s { s with s := .cSel, authStep := true } else none
+  | .cSendAuthSkip =>
+    if s.s = .cSendAuth ∧ c.fix.connSelect = true then outSkip s { s with s := .cSel, authStep := true } else none
   | .cSendErrConnack => if s.s = .cSendErrConnack then outPut s { s with s := .cSetErr } .connack else none
   | .cSendErrConnackSkip =>
     if s.s = .cSendErrConnack ∧ c.fix.connSelect = true then outSkip s { s with s := .cSetErr } else none
